@@ -116,20 +116,27 @@ class Sandbox:
         shutil.rmtree(self.root, ignore_errors=True)
 
     # -- data files -----------------------------------------------------------
-    def write_csv(self, name, records, delimiter=",", quotechar='"'):
+    def write_csv(self, name, records, delimiter=",", quotechar='"', lineterminator="\n",
+                  quote_all=False, final_newline=True):
         """records: list of lists of str; [] is a blank record.  Returns the
         path relative to the sandbox root (usable inside a csvpath)."""
         rel = os.path.join("data", name)
         os.makedirs(os.path.dirname(os.path.join(self.root, rel)), exist_ok=True)
+        buf = io.StringIO(newline="")
+        w = csv.writer(
+            buf, delimiter=delimiter, quotechar=quotechar, lineterminator=lineterminator,
+            quoting=csv.QUOTE_ALL if quote_all else csv.QUOTE_MINIMAL,
+        )
+        for r in records:
+            if len(r) == 0:
+                buf.write(lineterminator)
+            else:
+                w.writerow(r)
+        text = buf.getvalue()
+        if not final_newline and records and len(records[-1]) > 0 and text.endswith(lineterminator):
+            text = text[: -len(lineterminator)]
         with open(os.path.join(self.root, rel), "w", encoding="utf-8", newline="") as f:
-            w = csv.writer(
-                f, delimiter=delimiter, quotechar=quotechar, lineterminator="\n"
-            )
-            for r in records:
-                if len(r) == 0:
-                    f.write("\n")
-                else:
-                    w.writerow(r)
+            f.write(text)
         return rel
 
     def write_bytes(self, rel, data):
